@@ -59,6 +59,7 @@ type c08Case struct {
 	AttrVal     int   `json:"attrval"`
 	AttrAttrVal int   `json:"attr_attr_val"` // special string in attribute-valued fields (FriendlyName, SessionIndex)
 	PrefixList  bool  `json:"prefix_list"`
+	Wrap64      bool  `json:"wrap64"` // base64 of digest, signature and certificate broken into 64-character lines
 }
 
 func c08Key(alg int) string {
@@ -123,6 +124,7 @@ func c08Spec(c c08Case) idp.ResponseSpec {
 	if c.PrefixList {
 		sign.PrefixList = "saml samlp xs"
 	}
+	sign.Wrap64 = c.Wrap64
 	if c.Placement == 0 || c.Placement == 2 {
 		r.Sign = sign
 	}
@@ -380,6 +382,7 @@ func c08Gen(ch *mc.Chooser) c08Case {
 	c.AttrVal = ch.Choose("attrval", len(c08Values))
 	c.AttrAttrVal = ch.Choose("attr-attr-val", len(c08AttrVals))
 	c.PrefixList = ch.Bool("prefix-list")
+	c.Wrap64 = ch.Bool("wrap64")
 	return c
 }
 
@@ -411,7 +414,7 @@ func c08Cases(r *mc.Run) []c08Case {
 }
 
 func c08Run(r *mc.Run) {
-	r.Rule = "full product signing placement(3) x signature method(4) x digest(4) x canonicaliser(6) on the default document, plus every combination of <=2 (quick) / <=3 (thorough) deviations over 27 layout/content dimensions (placement, c14n, 4 prefix styles, pretty-printing, DEFLATE, 11 lexical re-layouts, comments in signed text, 1-3 assertions, two AttributeStatements, 5 attribute shapes, 6 AuthnStatement shapes, InResponseTo, 12 NameID strings, 12 attribute-value strings, 7 attribute-valued strings, InclusiveNamespaces prefix list); each lexical re-layout is machine-checked to preserve the parse; non-trivial = accepted and compared field-for-field with the generating spec; distinct = distinct case"
+	r.Rule = "full product signing placement(3) x signature method(4) x digest(4) x canonicaliser(6) on the default document, plus every combination of <=2 (quick) / <=3 (thorough) deviations over 28 layout/content dimensions (placement, c14n, 4 prefix styles, pretty-printing, DEFLATE, 11 lexical re-layouts, comments in signed text, 1-3 assertions, two AttributeStatements, 5 attribute shapes, 6 AuthnStatement shapes, InResponseTo, 12 NameID strings, 12 attribute-value strings, 7 attribute-valued strings, InclusiveNamespaces prefix list, base64 of digest/signature/certificate wrapped at 64 columns); each lexical re-layout is machine-checked to preserve the parse; non-trivial = accepted and compared field-for-field with the generating spec; distinct = distinct case"
 	r.Assume("goxmldsig canonicalisers used by the harness signer", "etree parser/canonical writer as harness DOM", "sizes stay below goxmldsig's 1000-element traversal cap")
 	cases := c08Cases(r)
 	r.State(len(cases))
